@@ -436,6 +436,40 @@ impl C11 {
             out.extend(o);
             n += k;
         }
+        // construction from caller-supplied resources: both surfaces must agree on success and on the instance they build
+        {
+            let case = json!({"kind":"crypto","req": d0.to_json(), "what": "new_with_params"});
+            let zkey = rln::circuit::ZKEY_BYTES.to_vec();
+            let graph = rln::circuit::graph_from_folder().to_vec();
+            let cfgs: Vec<(&str, Vec<u8>, Vec<u8>, Vec<u8>, usize)> = vec![
+                ("bundled resources", zkey.clone(), graph.clone(), b"{}".to_vec(), 20),
+                ("bundled resources, height 3", zkey.clone(), graph.clone(), Vec::new(), 3),
+                ("empty key", vec![], graph.clone(), b"{}".to_vec(), 20),
+                ("malformed tree configuration", zkey.clone(), graph.clone(), b"{not json".to_vec(), 20),
+            ];
+            for (name, z, g, c, h) in cfgs {
+                let rb = guard(|| RLN::new_with_params(h, z.clone(), g.clone(), Cursor::new(c.clone())));
+                let rb = match rb { Ok(r) => r, Err(_) => continue }; // a panic of the Rust constructor is outside the lockstep domain
+                let mut ctx: *mut RLN = std::ptr::null_mut();
+                let fa = ffi::new_with_params(h, &buf(&z), &buf(&g), &buf(&c), &mut ctx);
+                n += 1;
+                if fa != rb.is_ok() {
+                    out.push(Discrepancy { key: "C11/new_with_params/flag-differs".into(), case: case.clone(), detail: format!("{name}: FFI reports {fa}, the Rust constructor {}", if rb.is_ok() { "Ok" } else { "Err" }) });
+                }
+                if fa && !ctx.is_null() {
+                    if let Ok(b) = rb {
+                        let mut ob = Buffer { ptr: std::ptr::null(), len: 0 };
+                        let ok = ffi::get_root(ctx, &mut ob);
+                        let mut o = Cursor::new(vec![]);
+                        let _ = b.get_root(&mut o);
+                        if take(ok, &ob).bytes.as_deref() != Some(&o.get_ref()[..]) {
+                            out.push(Discrepancy { key: "C11/new_with_params/output-differs".into(), case: case.clone(), detail: format!("{name}: the two instances have different empty-tree roots") });
+                        }
+                    }
+                    unsafe { drop(Box::from_raw(ctx)) };
+                }
+            }
+        }
         Ok((out, n))
     }
 }
